@@ -6,7 +6,7 @@ EXPLANATION = ('Sibling cross-check of the three sites in logos_codegen::generat
                'each site must consume literal, priority, callback, ignore_flags (and allow_greedy for regex/skip); the ignore_case argument of Pattern::compile '
                'must be the definition\'s own flag; a token without ignore(case) must bypass the regex parser through Pattern::compile_lit (Hir::literal of the raw bytes), '
                'with ignore(case) it is compiled from Literal::escape(true); Pattern::compile hands unicode/ignore_case to the regex parser builder. '
-               'Decides that the flag and the literal reach regex-syntax unaltered at every site; not that regex-syntax\'s escaping / case folding denote the claimed languages.')
+               'IgnoreFlags::ignore_case is written by parse_ident only (M-C10d). Decides that the flag and the literal reach regex-syntax unaltered at every site; not that regex-syntax\'s escaping / case folding denote the claimed languages.')
 
 
 def run(ctx, rep):
@@ -16,6 +16,9 @@ def run(ctx, rep):
     cg.rule_literal_escape(rep, crate)
     # a literal character counts once whether it is a Literal or (under ignore(case)) a class: ignore(case) leaves the default priority alone
     cg.rule_complexity(rep, crate)
+    cg.rule_ignore_case_writers(rep, crate)
+    # a str subpattern spliced into a byte pattern keeps its own Unicode mode, on which the kind of case folding depends
+    cg.rule_subpatterns(rep, crate)
     if ctx.tier == 'thorough':
         crate2 = ctx.mir('codegen-sm')['logos_codegen']
         cg.rule_sites(rep, crate2, want=('C10',))
